@@ -385,3 +385,102 @@ def run_abs_sign(facts, rep, files=None):
                           "negative inputs are handled as if they were positive" % (x.get("l"), "true" if always else "false"),
                           facts.loc(p, x))
     return n
+
+
+def _len_recv(e):
+    """root local of X in `X.len()` (through - 1), else None"""
+    e = strip(e)
+    if e.get("k") == "MCall" and e.get("name") == "len" and not e["args"]:
+        return root_local(e["recv"])
+    return None
+
+
+def run_pairwise(facts, rep, files=None):
+    """R-CONTRA(pairs): counter loops that consume X[i], X[i+c].
+    (bound)     `while i < X.len()` with an access X[i + c], c >= 1, in a function that itself tests X.len() % 2 (it
+                believes an odd length possible): for the last i of an odd-length X the access is out of bounds.
+    (deadstore) a loop that only advances i and stores its computed value to X[i] while every later read of X uses a larger
+                index (the pair X[i], X[i+1] of later iterations, or the last element after the loop): the stored values
+                never reach the result, so the loop's work is lost."""
+    R = "R-CONTRA(pairs)"
+    rep.rule(R, "pairwise-consuming counter loops stay in bounds for odd lengths and do not store their results where they are "
+             "never read")
+    n = 0
+    for p in sorted(facts.hir):
+        it = facts.items[p]
+        if files is not None and it["file"] not in files:
+            continue
+        body = facts.hir[p]
+        whiles = [x for x in walk(body) if x.get("k") == "While"]
+        if not whiles:
+            continue
+        odd_belief = set()
+        for x in walk(body):
+            if x.get("k") == "Bin" and x.get("op") in ("%", "&"):
+                rl = _len_recv(x["a"])
+                if rl and strip(x["b"]).get("v", "").split("_")[0] in ("2", "1"):
+                    odd_belief.add(rl[0])
+        for k_w, w in enumerate(whiles):
+            c = strip(w["c"])
+            if c.get("k") != "Bin" or c.get("op") != "<":
+                continue
+            # forms: i < X.len() | i + 1 < X.len() | i < X.len() - 1
+            lhs, rhs = strip(c["a"]), strip(c["b"])
+            slack = 0
+            if lhs.get("k") == "Bin" and lhs.get("op") == "+" and local_of(lhs["a"]):
+                slack += int(strip(lhs["b"]).get("v", "0").split("_")[0] or 0)
+                ctr = local_of(lhs["a"])
+            else:
+                ctr = local_of(lhs)
+            if rhs.get("k") == "Bin" and rhs.get("op") == "-":
+                slack += int(strip(rhs["b"]).get("v", "0").split("_")[0] or 0)
+                arr = _len_recv(rhs["a"])
+            else:
+                arr = _len_recv(rhs)
+            if not ctr or not arr:
+                continue
+            accesses = []
+            for y in walk(w["body"]):
+                if y.get("k") == "Index" and (root_local(y["e"]) or (None,))[0] == arr[0]:
+                    i0 = strip(y["i"])
+                    off = None
+                    if local_of(i0) and local_of(i0)[0] == ctr[0]:
+                        off = 0
+                    elif i0.get("k") == "Bin" and i0.get("op") == "+" and local_of(i0["a"]) and local_of(i0["a"])[0] == ctr[0]:
+                        off = int(strip(i0["b"]).get("v", "0").split("_")[0] or 0)
+                    if off is not None:
+                        accesses.append((y, off))
+            if not accesses:
+                continue
+            n += 1
+            rep.fn(p)
+            key = "%s/while#%d" % (p, k_w)
+            worst = max(off for _, off in accesses)
+            if worst > slack and arr[0] in odd_belief:
+                y = [a for a, off in accesses if off == worst][0]
+                rep.violation(R, key + "/bound", "`%s[%s + %d]` is read in a loop that only guarantees %s + %d < %s.len(), and the "
+                              "function itself tests %s.len() %% 2: for an odd length the last iteration indexes out of bounds" %
+                              (arr[1], ctr[1], worst, ctr[1], slack, arr[1], arr[1]), facts.loc(p, y))
+            elif worst > slack:
+                rep.unresolved(R, key + "/bound", "`%s[%s + %d]` under a guard with slack %d: in bounds only if the length has the "
+                               "right parity" % (arr[1], ctr[1], worst, slack), facts.loc(p, w))
+            else:
+                rep.ok(R, key + "/bound", "accesses up to `%s[%s + %d]` are implied in bounds by the loop condition" %
+                       (arr[1], ctr[1], worst), facts.loc(p, w))
+            # (deadstore)
+            stores = [y for y in walk(w["body"]) if y.get("k") == "Assign" and strip(y["lhs"]).get("k") == "Index" and
+                      any(a is strip(y["lhs"]) and off == 0 for a, off in accesses)]
+            grows = any(y.get("k") == "MCall" and y.get("name") in ("push", "insert", "extend") and
+                        (root_local(y["recv"]) or (None,))[0] == arr[0] for y in walk(w["body"]))
+            if stores and not grows:
+                later = [y for y in walk(body) if y.get("k") == "Index" and (root_local(y["e"]) or (None,))[0] == arr[0]
+                         and (y.get("l", 0), y.get("c", 0)) > (w.get("l", 0), w.get("c", 0)) and not any(y is z for z in walk(w))]
+                only_last = later and all(_len_recv(strip(strip(y["i"]).get("a", {}))) is not None and strip(y["i"]).get("op") == "-"
+                                          for y in later)
+                step = any(y.get("k") == "AssignOp" and y.get("op", "").startswith("+") and local_of(y["lhs"]) and
+                           local_of(y["lhs"])[0] == ctr[0] for y in walk(w["body"]))
+                if only_last and step and slack >= 1:
+                    rep.violation(R, key + "/deadstore", "the loop stores its result to `%s[%s]` with %s + %d < %s.len(), never grows "
+                                  "`%s`, and afterwards only the last element is read: the computed values never reach the "
+                                  "result" % (arr[1], ctr[1], ctr[1], slack, arr[1], arr[1]), facts.loc(p, stores[0]))
+    return n
